@@ -3,7 +3,11 @@ PROP = dict(
     tie={"modules": ["Ledger", "Plasma", "Verifier", "TieC03"],
          "fns": {"c03_apply": ("c03_apply_run", "c03_apply_eqb", "(vctx * vblk) * Z")}},
     suites=[{"bin": "c03", "name": "cands", "n": {"quick": 40, "thorough": 2500}, "timeout": 3000}],
-    rule="ledger states reached by random accepted traffic (transfers, contract calls, momentums with node-generated contract receives) on a real in-process node; at each of 3-5 states per history: valid candidate blocks of every type "
+    rule="ledger states reached by random accepted traffic (transfers, contract calls, receives by addressees and by NON-addressees incl. repeated ones, stacks of 1-4 unconfirmed receives/sends per account, momentums with node-generated contract receives) on a real in-process node; "
+         "of four histories two enforce the receiver rule from genesis (enforcement height 0), one runs wholly below the enforcement height, one has it in the middle (3-10) so the switch-over is crossed; "
+         "FORK candidates: while the pool holds unconfirmed blocks of an account, user sends / calls / receives whose stated predecessor is the confirmed frontier or an unconfirmed block below the pool frontier (control: the pool frontier), amounts around the balance at the stated predecessor and at the pool frontier, fused plasma around what is available at either; one accepted fork candidate per state goes through AddAccountBlockTransaction / ForceAddAccountBlockTransaction and the account state afterwards is compared with 'state at the stated predecessor + this block'; "
+         "non-addressee receive candidates (again by an account that already received the send as a non-addressee; by a random other account) in every regime; "
+         "at each of 3-5 states per history: valid candidate blocks of every type "
          "(user send, user call, user receive, contract receive re-verified at its own unconfirmed position, a contract send stand-alone, a genesis-type block) and 10 mutations each over 21 fields "
          "(all 22 fields of nom.AccountBlock: Version, ChainIdentifier, BlockType, Hash, PreviousHash, Height, MomentumAcknowledged, Address, ToAddress, Amount incl. nil, TokenStandard, FromBlockHash, DescendantBlocks add/drop/content-under-old-hash/order, Data, FusedPlasma, Difficulty, Nonce, BasePlasma, TotalPlasma, ChangesHash, PublicKey, Signature, signed-by-another-key, sibling swaps; hit counts per field: input_distribution c03:mutated-field:*, and c03:single-field:<field>:{rejected,accepted-and-valid} for single-field corruptions) "
          "x {zero, +-1, max, other valid value, swap}, one third double mutations, half of them re-hashed and re-signed; verdict of vm.Supervisor.ApplyBlock mapped to the error class by sentinel identity; a case is distinct by (ctx, block)",
@@ -11,12 +15,15 @@ PROP = dict(
                 "height one above the stated predecessor which is the frontier of the store it is applied on; MomentumAcknowledged on the node's chain, for a user block not older than the predecessor's, for a contract receive exactly the send's confirmation height; "
                 "0 <= amount < 2^255 and <= balance; a receive references a send found in the acknowledged momentum's store, addressed to the receiver from the enforcement height on, not marked received, next in line for a contract; PoW honoured. "
                 "Corollaries: any (single, double, arbitrary) corruption of a block is refused or itself valid; stand-alone contract sends and genesis-type blocks are never accepted. "
+                "Regimes: the enforcement height and the frontier height are fields of ctx; 'not yet received' is the marker of the RECEIVING account (per account in both regimes), 'addressed to the receiver' holds from the enforcement height on. "
+                "'references a SEND': accepted receives have a zero ToAddress, so on a ledger of accepted blocks the addressee rule implies it from the enforcement height on (C03_receive_references_send_partial); below it a receive of a confirmed non-send block is accepted (C03_legacy_receive_of_non_send_refuted, known finding, reproduced on the real node every run). "
                 "Modelled: Supervisor.ApplyBlock = verifier.AccountBlock (getContext incl. the Previous()-from-first-descendant rule, all() in its order), vm.applyBlock (enoughPlasma via the C12 model, embedded validation flag, enoughFunds/SubBalance, regenerate-and-compare), "
                 "verifier.AccountBlockTransaction (hash, signature, producer, descendants), Go panics (nil Amount, nil frontier, base-plasma lookup) as the Panic class.",
     assumptions=["SHA3 (ComputeHash), ed25519 verification, the address of a public key, the PoW check and the regenerated contract receive are inputs of the model, fed with the real results",
                  "embedded-method lookup + ValidateSendBlock of a send to an embedded address is one boolean input",
                  "ctx is the projection of the stores read through the public store API at the candidate's MomentumAcknowledged / Previous (store correctness: C07)",
-                 "ChangesHash of user blocks is outside Valid (it is not covered by the hash and not verified: see C13 / F10)"],
+                 "ChangesHash of user blocks is outside Valid (it is not covered by the hash and not verified: see C13 / F10)",
+                 "nobody holds a key whose address is the zero address (hypothesis v_addr b <> 0 of C03_receive_references_send_partial); the block a receive references is on a ledger of accepted blocks, whose non-send blocks have a zero ToAddress (ledger_wf, justified by C03_accepted_receive_zero_to)"],
 )
 META = dict(
     text="Machine-checked Coq theorem accept ctx b = true -> Valid ctx b over all node states and all candidate blocks (so over every single/double field mutation), about a Gallina transcription of the whole ApplyBlock decision with its error order, "
